@@ -13,7 +13,14 @@ SPEC = dict(
          'one, every subset of {stdout, stderr, stdin} (round robin), payload sizes 0, 1, 4095, 4096, 65535, 65536, 65537, 300000 per stream, exit code 0..255; the child is this '
          'harness binary (--child-echo) and reports argc/argv/environ and a digest of its stdin to a file; oracle: echoed argv and sorted environment equal the given ones, join() code '
          'equals the requested one, bytes read until read() returns 0 equal the bytes the child wrote (reader thread, 1- and 3-argument read), child stdin digest equals the bytes written. '
-         'non-trivial = extra arguments or redirected streams.',
+         'non-trivial = extra arguments or redirected streams. '
+         'late output (job proc-late): case = one child through one of the three open overloads (round robin) with one of the 6 stream sets containing stdout and/or stderr (round robin), '
+         'exit code = case number mod 256; the child sleeps a seeded 20..200 ms, then writes 1..4096 bytes (far below the pipe capacity) to each redirected output stream and exits; the '
+         'parent does NOT read first but calls join(exitCode) / join() / the destructor right after open() (schedule: 2 x join(exitCode), read-then-join, destructor, join() in turn, so that '
+         'every code meets join(exitCode) within 512 cases); SIGPIPE in the child is ignored (a failing write is reported with its errno) or reset to the default action (seeded); '
+         'oracle: join(exitCode) returns the requested code, and the report file of the child shows that no write to stdout/stderr failed and that the child reached its exit call '
+         '(the only evidence available after join()/destructor have closed the pipes); read-then-join additionally compares the bytes. The child records CLOCK_MONOTONIC at the end of '
+         'its sleep; late_writes_after_join_entry counts the cases where that is later than the parent\'s entry into join()/destructor.',
     assumptions=['getopt_long conventions as implemented by the reference: options are recognised after operands too (operands are reported in order, not permuted), long names must match '
                  'exactly; words that abbreviate a long name (a GNU extension) and a short option with an optional value followed by more characters in the same word (GNU: attached value, '
                  'libnstd: next cluster member) are outside the compared space and skipped (counted as vectors_outside_conventions_skipped)',
@@ -21,7 +28,10 @@ SPEC = dict(
                  'start/open(executable, argc, argv): argv[0] is passed equal to the executable (libnstd replaces it by the executable)',
                  'command-line form: words separated by single spaces, no backslash outside quoted segments, a trailing empty word ("") is not generated (libnstd drops it); inside quoted '
                  'segments a backslash that is neither last nor followed by a quote is literal (job proc-bs)',
-                 'runs under ASan/UBSan only; the echo child leaves with _exit (no leak check in the child)'],
+                 'runs under ASan/UBSan only; the echo child leaves with _exit (no leak check in the child)',
+                 'late output: that the child writes only after the parent is inside join() is a matter of scheduling (sleep of 20..200 ms); a case where the child was faster still has to '
+                 'pass, it only observes less; the number of cases with the intended order is measured (late_writes_after_join_entry) and has a floor. The payload always fits the pipe, '
+                 'so a child whose output is never read can finish; a parent that joins a child with more unread output than the pipe holds is outside the statement'],
     technique='runtime monitoring: reference option parser over exactly-sized argv blocks under ASan; self-exec echo child with file report, reader thread, byte-exact stream comparison',
     exhaustive={Q: False, T: False},
     jobs=[
@@ -29,9 +39,15 @@ SPEC = dict(
         job('args-rand', 'h_process', 'args-rand', cases={Q: 32000, T: 500000}, procs=16),
         job('proc', 'h_process', 'proc', cases={Q: 3200, T: 40000}, procs=16),
         job('proc-bs', 'h_process', 'proc-bs', cases={Q: 48, T: 600}, procs=16),
+        job('proc-late', 'h_process', 'proc-late', cases={Q: 1280, T: 12800}, procs=16),
     ],
     floors={Q: dict(vectors=1000000, items_compared=4000000, processes=1600, argv_strings_compared=10000, env_strings_compared=20000, stream_bytes_compared=30000000, payloads_over_pipe_capacity=200,
-                    **{'set:exit_codes': 230, 'set:item_classes': 22, 'set:overloads': 5, 'set:stream_sets': 8, 'set:overload_x_env': 10}),
+                    late_children=1280, late_children_not_read_first=1000, late_writes_after_join_entry=800, late_stream_bytes_compared=200000,
+                    **{'set:exit_codes': 230, 'set:item_classes': 22, 'set:overloads': 5, 'set:stream_sets': 8, 'set:overload_x_env': 10,
+                       'set:late_exit_codes_join_first': 256, 'set:late_finish': 4, 'set:late_stream_sets': 6, 'set:late_overloads': 3, 'set:late_child_sigpipe': 2, 'set:late_finish_x_streams': 24}),
             T: dict(vectors=25000000, items_compared=100000000, processes=16000, argv_strings_compared=100000, env_strings_compared=200000, stream_bytes_compared=300000000, payloads_over_pipe_capacity=2000,
-                    **{'set:exit_codes': 256, 'set:item_classes': 22, 'set:overloads': 5, 'set:stream_sets': 8, 'set:overload_x_env': 10})},
+                    late_children=12800, late_children_not_read_first=10000, late_writes_after_join_entry=8000, late_stream_bytes_compared=2000000,
+                    **{'set:exit_codes': 256, 'set:item_classes': 22, 'set:overloads': 5, 'set:stream_sets': 8, 'set:overload_x_env': 10,
+                       'set:late_exit_codes_join_first': 256, 'set:late_exit_codes_read_first': 256, 'set:late_finish': 4, 'set:late_stream_sets': 6, 'set:late_overloads': 3,
+                       'set:late_child_sigpipe': 2, 'set:late_finish_x_streams': 24})},
 )
